@@ -308,7 +308,7 @@ def gen_instant(rng, k):
 
 def gen_interval(rng, k):
     r0 = rng.random()
-    if r0 < 0.12:
+    if r0 < 0.16:
         # an exact bound that is a SHORT DECIMAL (1/10, 797/1000, 1/20000 = 5e-05) or a hair (1e-18 .. 1e-27) off one, and a float
         # bound within a few ulps of it: the float's displayed text is that short decimal, and what the tokeniser reads back from
         # it (the nearest float when the text has a decimal point, the exact decimal when it has none) may lie on the other side
@@ -321,11 +321,14 @@ def gen_interval(rng, k):
         if rng.random() < 0.4:
             x = float("%.6g" % x) - rng.choice([1e-8, 1e-9, 1e-10]) * x        # 0.09999999-like: rounds up onto the short decimal
         e = q + Fraction(rng.choice([0, 0, 1, -1]), 10 ** rng.randrange(18, 28))
+        gap = Fraction(float(q)) - q            # the short decimal and its nearest double differ by this much
+        if gap != 0 and rng.random() < 0.6:
+            e = q + gap * rng.choice([Fraction(1, 2), Fraction(1, 3), Fraction(2, 3), Fraction(-1, 2), Fraction(3, 2), Fraction(9, 10)])   # strictly between them, or just outside
         if rng.random() < 0.3:
             e, x = -e, -x
         e = int(e) if e.denominator == 1 else e
         return k.I(e, x) if Fraction(e) <= Fraction(x) else k.I(x, e)
-    if r0 < 0.24:
+    if r0 < 0.28:
         # an exact bound and a float bound a hair apart: rounding the float to the display precision must not carry it across
         q = Fraction(rng.randrange(1, 40), rng.choice([3, 7, 9, 11, 13, 6, 17]))
         if q.denominator == 1:
